@@ -2,8 +2,7 @@ import OrixModel.NDArray
 import OrixModel.Unique
 import Driver.Proto
 /-
-op `nd <cls> <shape> <flags> <meta> <prog>` (model of the code as it is) and `nds …` (corrected operations,
-`Obj.stepSpec`): run a program of structural / element-wise operations (C16) on an
+op `nd <cls> <shape> <flags> <meta> <prog>`: run a program of structural / element-wise operations (C16) on an
 object whose elements are symbolic tags `0 … n-1` (C order).  The whole history travels in one line.
 
   cls    Q | R | M | O | V | L          (Quaternion Rotation Misorientation Orientation Vector3d Miller)
@@ -114,19 +113,18 @@ def parseOp (tok : String) (O : Obj Sym) (next : Nat) : Option (Op Sym × Nat) :
     | _ => none
   | _ => none
 
-def runProg (spec : Bool) (toks : List String) (O : Obj Sym) (next : Nat) : String :=
+def runProg (toks : List String) (O : Obj Sym) (next : Nat) : String :=
   match toks with
   | [] => showObj O
   | t :: ts =>
     match parseOp t O next with
     | none => "!err parse"
     | some (op, next') =>
-      match (if spec then O.stepSpec symOps op else O.step symOps op) with
+      match O.step symOps op with
       | .error e => showErr e
-      | .ok O' => runProg spec ts O' next'
+      | .ok O' => runProg ts O' next'
 
-/-- `spec = true` runs the corrected operations (`Obj.stepSpec`), `false` the model of the code as it is -/
-def handleWith (spec : Bool) : List String → String
+def handle : List String → String
   | [cls, shape, flags, md, prog] =>
     match parseCls cls, parseNats shape, parseBits flags, parseNats md with
     | some c, some sh, some fl, some [a, b, p, f] =>
@@ -136,12 +134,9 @@ def handleWith (spec : Bool) : List String → String
       else
         let d := (List.range n).zip fl |>.map (fun (j, f) => (fresh j, f))
         let O : Obj Sym := ⟨c, ⟨sh, d⟩, ⟨a, b, p, f⟩⟩
-        runProg spec (if prog == "-" then [] else splitOn prog ";") O n
+        runProg (if prog == "-" then [] else splitOn prog ";") O n
     | _, _, _, _ => "!err parse"
   | _ => "!err bad-op"
-
-def handle : List String → String := handleWith false
-def handleSpec : List String → String := handleWith true
 
 end Orix.Driver.ND
 
@@ -207,7 +202,7 @@ def handle : List String → String
         if variant == "base" then showResult (baseUnique lexLt drop keys)
         else if variant == "spec" then showResult (uniqueSpec drop keys)
         else if variant == "rotA" || variant == "rotN" then
-          if keys.isEmpty then "empty" else showResult (rotUnique lexLt keys)
+          showResult (rotUnique lexLt keys)
         else "!err parse"
   | _ => "!err bad-op"
 
